@@ -136,14 +136,22 @@ def judge(case, res):
     if res["frame"] != 1 or len(res["diff"]) != n:
         bad.append((base + ":frame", "evaluation changed something else than the difficulty counters"))
         return bad
-    outs = [tok_value(t) for t in res["outs"]]
+    def num(tok, cast):        # a string counts as the double std::stod makes of it
+        return "d:" + (NAN_HEX if cast == "T" else cast) if tok.startswith("s:") else tok
+    casts = res.get("casts") or [("-", "-")] * n
+    outs = [tok_value(num(t, casts[i][0])) for i, t in enumerate(res["outs"])]
     before = [int(r[3]) for r in rows]
     if base in ERR_KINDS:
-        tg = [tok_value(r[2]) for r in rows]
+        tg = [tok_value(num(r[2], casts[i][1])) for i, r in enumerate(rows)]
         if kind.endswith(".fast"):
             visited = [i for i in range(0, n, 5) if n - i >= 5]
         else:
             visited = list(range(n))
+        nonfinite = any(outs[i] is not None and not (math.isfinite(outs[i]) and math.isfinite(tg[i])) for i in visited)
+        if nonfinite:
+            # inf / nan cells (only reachable through strings such as "inf") are outside the domain of the
+            # documented mean; sign, NaN and the model comparison still apply
+            return bad
         ed = [err_double(base, outs[i], tg[i]) for i in visited]
         ex = [err_exact(base, outs[i], tg[i]) for i in visited]
         wrong = set(i for i, e in zip(visited, ed) if not issmall(e))
@@ -224,10 +232,33 @@ def special_doubles():
             1e10, -1e10, 123456.789, 1e-5]
 
 
+def S(text):
+    return "s:" + text.encode().hex()
+
+
+NUMERIC_STRINGS = ["1.5", "-2", " 3", "1e5", "0x1p3", "3abc", "1e308", "-0", "0", "inf", "-inf", ".5", "+7", "1e-320",
+                   "2.5e-1", "12345678901234567890", "nan"]
+BAD_STRINGS = ["abc", "-", ".", "e5", " ", "1e999", "-1e999", "1e-999", "x1"]
+
+
 def gen_pair(rng):
     """(output token, target token) for the identity program"""
     r = rng.random()
     sp = special_doubles()
+    if r < 0.05:
+        # string-valued output and/or target: lexical_cast -> std::stod (throws on non numeric text)
+        q = rng.random()
+        so = S(rng.choice(NUMERIC_STRINGS if q < 0.7 else BAD_STRINGS))
+        q2 = rng.random()
+        if q2 < 0.4:
+            t = S(rng.choice(NUMERIC_STRINGS if rng.random() < 0.8 else BAD_STRINGS))
+        else:
+            t = D(rng.choice([1.5, -2.0, 0.0, 3.0, rng.gauss(0, 5)]))
+        if rng.random() < 0.3:
+            so = D(rng.gauss(0, 5)) if rng.random() < 0.7 else "v"      # only the target is a string
+            t = S(rng.choice(NUMERIC_STRINGS + BAD_STRINGS))
+        return so, t
+    r = rng.random()
     if r < 0.12:
         t = rng.choice(sp) if rng.random() < 0.5 else rng.gauss(0, 100)
         return "v", D(t)
@@ -297,12 +328,12 @@ def gen_case_err(rng, thorough):
     elif rp < 0.2:
         prog = rng.choice(["ADD", "SUB", "MUL", "DIV", "LN", "SQRT", "ABS"])
         for row in rows:
-            if row[0] == "v" or row[0][0] == "i":
+            if row[0] == "v" or row[0][0] in "is":
                 row[0] = D(rng.gauss(0, 10))
     elif rp < 0.3:
         prog = "R:%d" % rng.randint(1, 10 ** 6)
         for row in rows:
-            if row[0] == "v" or row[0][0] == "i":
+            if row[0] == "v" or row[0][0] in "is":
                 row[0] = D(rng.gauss(0, 10))
     if n >= 100 and rng.random() < 0.7:
         kind += ".fast"
@@ -330,6 +361,8 @@ def gen_case_cls(rng, thorough):
             x = D(rng.choice([0.0, -0.0, 5e-324, -5e-324, 1e300, -1e300, DBL_MAX, -DBL_MAX, 1e7, 1.0000001e7, -1e7, 1e-300]))
         elif q < 0.22:
             x = "i:%d" % rng.choice([0, 1, -1, 5])
+        elif q < 0.25:
+            x = S(rng.choice(["1.5", "-2", "0", "3abc", "1e5", " 4"]))      # numeric strings (stod succeeds)
         elif kind == "binary":
             x = D((1 if lab == 1 else -1) * abs(rng.gauss(1, 1)) * (1 if rng.random() < 0.8 else -1))
         else:
@@ -349,12 +382,12 @@ def gen_case_cls(rng, thorough):
     elif rp < 0.16:
         prog = rng.choice(["ADD", "SUB", "MUL", "DIV", "ABS"])
         for row in rows:
-            if row[0] == "v" or row[0][0] == "i":
+            if row[0] == "v" or row[0][0] in "is":
                 row[0] = D(rng.gauss(0, 10))
     elif rp < 0.24:
         prog = "R:%d" % rng.randint(1, 10 ** 6)
         for row in rows:
-            if row[0] == "v" or row[0][0] == "i":
+            if row[0] == "v" or row[0][0] in "is":
                 row[0] = D(rng.gauss(0, 10))
     return {"kind": kind, "classes": classes, "prog": prog, "rows": rows}
 
@@ -370,6 +403,12 @@ def fixed_cases():
                     "rows": [[D(DBL_MAX), D(0.0), D(-DBL_MAX), 3], [D(DBL_MAX), D(0.0), D(-DBL_MAX), 0], [D(1.0), D(0.0), D(1.0), 0]]})
         out.append({"kind": k, "classes": 0, "prog": "X", "rows": [[D(1e306), D(0.0), D(-1e306), 0]]})
         out.append({"kind": k, "classes": 0, "prog": "X", "rows": [[D(1e306), D(0.0), D(-1e306), 0]] * 3})
+        # strings: numeric, non numeric in the middle (earlier rows keep their increment), bad target under a void output
+        out.append({"kind": k, "classes": 0, "prog": "X", "rows": [[S("1.5"), D(0.0), D(1.5), 0], [S("2"), D(0.0), S("4"), 3]]})
+        out.append({"kind": k, "classes": 0, "prog": "X",
+                    "rows": [[D(5.0), D(0.0), D(1.0), 1], [S("abc"), D(0.0), D(1.0), 2], [D(5.0), D(0.0), D(1.0), 3]]})
+        out.append({"kind": k, "classes": 0, "prog": "X", "rows": [["v", D(0.0), S("abc"), 1], [D(1.0), D(0.0), S("1e999"), 2]]})
+        out.append({"kind": k, "classes": 0, "prog": "X", "rows": [["i:3", D(0.0), D(3.0), 0], ["i:-7", D(0.0), "i:-7", 0], ["i:2147483647", D(0.0), D(0.0), 0]]})
         # |a| + |t| overflows although 200 * |t - a| does not
         out.append({"kind": k, "classes": 0, "prog": "X", "rows": [[D(1.7e308), D(0.0), D(1.699e308), 0]]})
         out.append({"kind": k, "classes": 0, "prog": "X", "rows": [[D(-9.1e307), D(0.0), D(-9.0e307), 0], [D(1.0), D(0.0), D(2.0), 0]]})
@@ -408,7 +447,7 @@ def harness_line(c):
 def parse_harness(line):
     if line is None or not (line.startswith("fit=") or line.startswith("THROW ")):
         return None
-    res = {"fit": [], "outs": [], "diff": [], "frame": 1, "tags": [], "thrown": line.startswith("THROW "), "tags_thrown": False}
+    res = {"fit": [], "outs": [], "diff": [], "frame": 1, "tags": [], "thrown": line.startswith("THROW "), "tags_thrown": False, "casts": []}
     for w in line.split():
         k, _, v = w.partition("=")
         if k == "fit":
@@ -419,6 +458,8 @@ def parse_harness(line):
             res["diff"] = [int(x) for x in v.split(",")] if v else []
         elif k == "frame":
             res["frame"] = int(v)
+        elif k == "casts":
+            res["casts"] = [tuple(x.split("/")) for x in v.split(",")] if v else []
         elif k == "tags":
             if v == "THROW":
                 res["tags_thrown"] = True
@@ -433,7 +474,11 @@ def model_line(c, res):
     toks = []
     for i, r in enumerate(c["rows"]):
         tg = "-"      # the model builds the classifier itself (C08's model)
-        toks.append("%s %s %s %d %s %s" % (r[0], r[1], r[2], r[3], res["outs"][i], tg))
+        oc, tc = res["casts"][i] if i < len(res["casts"]) else ("-", "-")
+
+        def st(tok, cast):      # a string cell travels with what std::stod answered on it
+            return tok + ":" + cast if tok.startswith("s:") and cast != "-" else tok
+        toks.append("%s %s %s %d %s %s" % (st(r[0], oc), r[1], st(r[2], tc), r[3], st(res["outs"][i], oc), tg))
     return "%s %d %d %s" % (c["kind"], c["classes"], len(c["rows"]), " ".join(toks))
 
 
@@ -443,19 +488,21 @@ def nontrivial(c, res):
     n = len(c["rows"])
     if n == 1:
         return True
+    if res.get("thrown") or any(t.startswith("s:") for t in res["outs"]):
+        return True
     outs = [tok_value(t) for t in res["outs"]]
     if any(o is None for o in outs):
         return True
     base = c["kind"].split(".")[0]
     if base in ERR_KINDS:
         for o, r in zip(outs, c["rows"]):
+            if r[2].startswith("s:"):
+                return True
             t = tok_value(r[2])
             d = abs(o - t)
             if 2.0 ** -53 <= d <= 2.0 ** -50 or d > 1e150 or d != d or abs(o) > 1e150:
                 return True
         return False
-    if res.get("thrown"):
-        return True
     wrong = [res["tags"][i][0] != int(c["rows"][i][2][2:]) for i in range(n)]
     return any(wrong) and not all(wrong)
 
@@ -509,7 +556,8 @@ def run(ck):
                    "the oracle in checks/c05.py (exact rational mean of the documented errors, python floats = IEEE binary64)"]
     ck.assumptions += [
         "program outputs enter the model as an oracle  out : inputs -> void|int|double  (the interpreter is C01/C08); "
-        "string-valued outputs are outside the model",
+        "a string cell carries what std::stod (libc, not modelled) answered on it, as reported by the harness; "
+        "non numeric strings are generated for the error evaluators only",
         "dyn_slot / gaussian: the evaluator model builds the classifier with C08's executable model "
         "(coq/Lambda/LambdaDefs.v) and counts the mismatches of that object's tag(); libm atan / exp are Section "
         "variables (realised by glibc in the driver); the generic theorems also hold for any tag function",
@@ -618,6 +666,8 @@ def run(ck):
                 sens += 1
         ck.coverage["order_sensitive_permutation_groups"] = "%d of %d (running mean in binary64 depends on the order; reported, not a violation)" % (sens, len(perm_groups))
     ck.coverage["per_evaluator"] = hist
+    ck.coverage["exception_outcomes"] = sum(1 for r in parsed if r and r.get("thrown"))
+    ck.coverage["cases_with_string_cells"] = sum(1 for c in cases if any(str(t).startswith("s:") for row in c.get("rows", []) for t in row[:3]))
     return ck.finish(
         rule="fixed boundary cases (overflowing errors, +-DBL_MAX, undefined outputs, issmall edge 2^-51, single row, "
              "difficulty wrap) + seeded random datasets for mae/rmae/mse/count (operator() and fast()), binary/dyn_slot/"
